@@ -14,3 +14,66 @@ RULE = "as C02; 30% of action calls return ASYNC_PAUSED. non-trivial = at least 
 def nontrivial(s, t, v):
     na, ns, nas = E.stats(s, t)
     return nas >= 1 and na >= 2
+
+
+# ---- suspended chains across drop-in activity: decided on the drop-in engine ---------------------------------------------
+#
+# h_engine has no drop-ins.  A base ruleset that is disabled by a drop-in (disable-on-drop-in) while one of its chains is
+# suspended does not run at all on those ticks; when the drop-in goes away the chain must still be there - for a
+# ruleset-cgroup base that means its per-cgroup instance (which holds the chain) survives the disabled ticks.  Decided on C13's
+# engine (h_dropin: real compiler, Engine, drop-in adaptor); only clause C06.suspended_chain_resumes counts here.
+
+def dropin_scenarios(rng, tier):
+    from . import C13
+    n = {"quick": 1200, "thorough": 15000, "search": 4000}[tier]
+    for i in range(n):
+        s = C13.random_history(rng, 12 if i % 3 else 5)
+        s.pop("twin_tag", None)
+        if "tree" not in s and rng.random() < 0.6:
+            s["tree"] = {"name": "", "children": [{"name": "s", "children": [{"name": "a", "children": []}]}]}
+            for b in s["rulesets"]:
+                if rng.random() < 0.7:
+                    b["cgroup"] = rng.choice(["s/a", "s/*"])
+        acts = sorted({a for b in s["rulesets"] for a in b["actions"]})
+        for t in s["ticks"]:
+            for a in acts:
+                if rng.random() < 0.25:
+                    t["calls"][str(a)] = [2, 0, -1]
+        s["prop"] = PROP
+        yield s
+
+
+def run(tier, seed, replay=None):
+    import json
+    import os
+    import random
+    import sys
+    from vlib import core
+    from . import C13
+    mod = sys.modules[__name__]
+
+    def want(c):
+        return c.startswith("C06.")
+    if replay:
+        rp = json.load(open(replay))
+        if rp.get("pass") == "dropinsusp":
+            viol, _, _ = core.extra_pass(PROP, "dropin", "h_dropin", "asan", [rp["scenario"]], tier, seed, want=want, label="dropinsusp")
+            for c, p in viol:
+                print("VIOLATION property=%s replay=%s" % (PROP, p))
+            return 1 if viol else 0
+        return core.run_check(mod, tier, seed, replay)
+    rc = core.run_check(mod, tier, seed, replay)
+    esc = tier == "quick" and core.changed_sources() and not os.environ.get("VERIF_NO_ESCALATION")
+    scs = list(dropin_scenarios(random.Random(seed * 7517 + 11), "search" if esc else tier))
+    viol, cov, res = core.extra_pass(PROP, "dropin", "h_dropin", "asan", scs, tier, seed, want=want,
+                                     shrink_candidates=getattr(C13, "shrink_candidates", None), label="dropinsusp")
+    cov["dropinsusp_pass_async_returns"] = sum(1 for s, t, v in res for tk in s["ticks"] for c in tk["calls"].values() if c[0] == 2)
+    cov["dropinsusp_pass_cgroup_bases"] = sum(1 for s, t, v in res if "tree" in s)
+    core.merge_extra_into_evidence(PROP, cov, len(viol),
+                                   "drop-in pass (h_dropin): random add / re-add / remove histories over base rulesets of which 60% "
+                                   "are ruleset-cgroup rulesets, a quarter of the action calls return ASYNC_PAUSED; clause: a "
+                                   "suspended chain is resumed at the paused action on the first tick the ruleset runs again, also "
+                                   "after ticks on which a drop-in disabled it")
+    for c, p in viol:
+        print("VIOLATION property=%s replay=%s" % (PROP, p))
+    return 1 if (rc or viol) else 0
